@@ -104,6 +104,20 @@ pub fn violated(models: &[TableDef]) -> Option<&'static str> {
                 }
             }
         }
+        // A4: a string default of a non-enum column is a literal or a niladic function
+        for c in &t.columns {
+            if let (Some(vespertide_core::DefaultValue::String(d)), false) = (&c.default, matches!(c.r#type, ColumnType::Complex(ComplexColumnType::Enum { .. }))) {
+                let x = d.trim();
+                let ok = x.is_empty()
+                    || x.starts_with('\'')
+                    || x.parse::<f64>().is_ok()
+                    || ["true", "false", "null", "current_timestamp", "current_date", "current_time", "now()", "gen_random_uuid()", "uuid()"]
+                        .contains(&x.to_ascii_lowercase().as_str());
+                if !ok {
+                    return Some("A4");
+                }
+            }
+        }
         // A7
         for c in &t.columns {
             if let ColumnType::Complex(ComplexColumnType::Enum { values, .. }) = &c.r#type {
